@@ -11,8 +11,8 @@ import trees
 from props import rebuild_common as rc
 
 GEN_FILES = []
-EXTRA_TARGETS = ["Extract/ExtractRebuild.vo"]
-AREAS = ["rebuild"]
+EXTRA_TARGETS = ["Extract/ExtractRebuild.vo", "Extract/ExtractRebuildRun.vo"]
+AREAS = ["rebuild", "rebuildrun"]
 RULE = ("model tie: (1) Metadata(metafile)._map_pieces() -> per piece the (full, start, stop) list vs the extracted Coq map_pieces on the "
         "same (piece length, lengths, recorded piece count), metafiles written by the reference encoder: small scope 1..5 files, sizes 0..7, "
         "piece length 1..4 (exhaustive in the thorough tier, sampled in quick), recorded piece counts that are off by one or two, real-"
@@ -153,6 +153,9 @@ def run(ctx, model_ok):
     lists = [list(s) for k in (0, 1, 2, 3) for s in itertools.product(rc.HOSTILE[:5] + ["..x"], repeat=k)][:400]
     rc.check_parts_tie(ctx, model_ok, comps, lists)
     rc.parts_tie(ctx, model_ok)
+    # the composition Metadata(metafile).rebuild(filemap, dest) on a real scratch filesystem vs Model/RebuildRun.v rebuild_of_metafile
+    from props import rebuild_pipeline
+    rebuild_pipeline.tie_rebuild_run(ctx, model_ok)
     rc.extract_tie(ctx, model_ok)
     rc.match_v2_tie(ctx, model_ok)
     e2e(ctx)
